@@ -5,6 +5,7 @@ import translate_arith
 import translate_params
 import translate_hedge
 import translate_ks
+import translate_mixins
 
 
 def gen_arith():
@@ -23,4 +24,8 @@ def gen_ks():
     return translate_ks.translate(os.path.join(PKG, "pba/pbox_free.py"))
 
 
-ALL = [("GenArith", gen_arith), ("GenParams", gen_params), ("GenHedge", gen_hedge), ("GenKS", gen_ks)]
+def gen_dispatch():
+    return translate_mixins.translate(os.path.join(PKG, "pba/mixins.py"))
+
+
+ALL = [("GenDispatch", gen_dispatch), ("GenArith", gen_arith), ("GenParams", gen_params), ("GenHedge", gen_hedge), ("GenKS", gen_ks)]
